@@ -25,10 +25,12 @@ impl<F: Field> PolynomialCoeffs<F> {
             let rhs: Self = self.rev().coeffs[..=a_degree_plug_1 - b_degree_plus_1]
                 .to_vec()
                 .into();
-            let rev_q: Self = (&rev_b_inv * &rhs).coeffs[..=a_degree_plug_1 - b_degree_plus_1]
+            let mut q: Self = (&rev_b_inv * &rhs).coeffs[..=a_degree_plug_1 - b_degree_plus_1]
                 .to_vec()
                 .into();
-            let mut q = rev_q.rev();
+            // Reverse all `deg(a) - deg(b) + 1` coefficients: `rev()` would first drop the zero
+            // high coefficients of the reversed quotient, which are low coefficients of `q`.
+            q.coeffs.reverse();
             let qb = &q * b;
             let mut r = self - &qb;
             q.trim();
@@ -121,10 +123,8 @@ impl<F: Field> PolynomialCoeffs<F> {
             tmp.coeffs.iter_mut().for_each(|x| *x = -(*x));
             tmp.trim();
             let mut b = &a * &tmp;
-            b.trim();
-            if b.len() > l {
-                b.coeffs.drain(l..);
-            }
+            // `b` holds the next `l` coefficients of the inverse, zero ones included.
+            b.coeffs.resize(l, F::ZERO);
             a.coeffs.extend_from_slice(&b.coeffs);
         }
         a.coeffs.drain(n..);
